@@ -174,7 +174,7 @@ theorem callCmd_out_encodes (env : Env) (pruning : Int) (sv : Services) (host : 
         cases hs' : allStr ys with
         | none => simp [hs'] at ho
         | some ss =>
-          simp only [hs'] at ho
+          simp only [hs', hashable_true, if_true] at ho
           injection ho with ho
           subst ho
           exact dump_ack
